@@ -79,7 +79,10 @@ func (p *Parser) parseHeader(data []byte) (header *parser.PacketHeader, buf []by
 			return
 		}
 
-		attachments, err := strconv.ParseUint(string(data[:i]), 10, 0)
+		// The count must fit into an int. Otherwise the conversion below would wrap it
+		// to a negative number that bypasses `maxAttachments` and that no number of
+		// attachments can ever satisfy.
+		attachments, err := strconv.ParseUint(string(data[:i]), 10, strconv.IntSize-1)
 		if err != nil {
 			return nil, nil, "", err
 		}
